@@ -17,8 +17,9 @@ JOBS.append(Job('workday.calendar', 'C20/base.cpp', 'h_workday_calendar', 'B', r
 META = dict(
     explanation='Next-instant kernels (WeeklyAlarm / OneshotAlarm::calculateNextLocalTimeSec) are translated from the clang IR of the real sources to C and decided by CBMC over the full 32-bit time range with a second symbolic witness instant w (now < w < next must not match); '
                 'the div/mod-by-constant arithmetic is discharged by cvc5 --solve-bv-as-int=sum through cbmc --cvc5 (cadical for the one-shot kernel). The workday kernel runs path-wise (symir, z3) against an arbitrary calendar given by symbolic special days and week mask inside a day window. '
-                'The alarm base class (activeTimer/onTimeExpired/enable/disable/refresh/cleanup) runs in symir on a fake loop/timer with a symbolic gettimeofday and with the virtual next-instant function replaced by an ARBITRARY function obeying its contract (result = argument + delta, 1 <= delta <= 400 days), which covers cron and every other alarm kind.',
-    bounds='weekly: now in [0, 2^32 - 9 days), all seconds-of-day, 7 representative masks in the quick tier and the symbolic 7-bit mask in the thorough tier; one-shot: full range; workday: 4-day window (7 thorough) from 3 concrete start days, symbolic time of day/mask/special days; base class: one operation (expiry with the wall clock from 1 s before to 5 s after the target, disable+enable, clock adjustment+refresh, cleanup) after enable, time zone -720..840 min, distance up to 400 days',
-    outside='cron expression parsing and cron_next (ccronexpr.cpp, 1200 lines over struct tm / mktime) - covered only through the contract stub of the base class; the system time zone path (localtime_r); local times beyond 2^32 - 9 days',
+                'The alarm base class (activeTimer/onTimeExpired/enable/disable/refresh/cleanup) runs in symir on a fake loop/timer with a symbolic gettimeofday and with the virtual next-instant function replaced by an ARBITRARY function obeying its contract (result = argument + delta, 1 <= delta <= 400 days), which covers cron and every other alarm kind.'
+                ' Extended: three WorkdayAlarms on one WorkdayCalendar, four symbolic enable/disable toggles, then a calendar update (week mask or special days): exactly the enabled alarms are re-evaluated and each ends up armed for the instant a freshly enabled alarm with the same configuration gets.',
+    bounds='weekly: now in [0, 2^32 - 9 days), all seconds-of-day, 7 representative masks in the quick tier and the symbolic 7-bit mask in the thorough tier; one-shot: full range; workday: 4-day window (7 thorough) from 3 concrete start days, symbolic time of day/mask/special days; base class: one operation (expiry with the wall clock from 1 s before to 5 s after the target, disable+enable, clock adjustment+refresh, cleanup) after enable, time zone -720..840 min, distance up to 400 days; calendar: 3 alarms, 4 toggles',
+    outside='cron expression parsing and cron_next (ccronexpr.cpp, 1200 lines over struct tm / mktime) - covered only through the contract stub of the base class (the seeded change C20-m3 in cron_next is therefore not caught); the system time zone path (localtime_r); local times beyond 2^32 - 9 days',
     assumptions=['gettimeofday succeeds and returns tv_usec < 10^6', 'fake TimerEvent records the armed interval; the loop fires it (one-shot timers disarm before the callback)', 'LogPrintfFunc is a no-op'],
     trusted_base=['clang++-14 -O1 IR', 'engine/ir2c.py + cbmc 6.11 (--cvc5 with the bv-as-int PATH shim, cadical)', 'engine/symir.py + z3 (+ cvc5/z3 CLI portfolio for queries z3 gives up on)', 'harness/vp_fakes.hpp'])
